@@ -366,10 +366,12 @@ def replay(ctx, path):
         if name in d:
             drivers[c] = d[name]
     lake_build(["dalek-model"])
-    mo = run_model(lines)
+    mo_plain = run_model(lines)
+    mo_legacy = run_model(lines, legacy=True)
     rc = 0
     for c, p in drivers.items():
         do = run_lines(p, lines)
+        mo = mo_legacy if "-legacy" in c else mo_plain
         for l, d, m in zip(lines, do, mo):
             if d != "skip" and not same(l.split(" ", 1)[0], d, m, l):
                 print("DIFF cfg=%s\n  request: %s\n  driver:  %s\n  model:   %s" % (c, l[:400], d[:400], m[:400]))
